@@ -19,7 +19,7 @@ import (
 
 var points = []string{"decorator.sub.before_out", "router.run.received", "router.handle.start", "in-handler", "router.handle.before_publish", "router.handle.before_settle"}
 var closerCounts = []int{1, 2, 8}
-var subKinds = []string{"scripted", "scripted-emit-on-close", "scripted-ignore-ctx", "gochannel-buf0", "gochannel-buf4"}
+var subKinds = []string{"scripted", "scripted-emit-on-close", "scripted-ignore-ctx", "scripted-drains-on-close", "gochannel-buf0", "gochannel-buf4"}
 
 const wgtFrame = "pubsub/sync.WaitGroupTimeout"
 
@@ -30,8 +30,8 @@ func init() {
 		ID:    "C06",
 		Level: "fault_enumeration",
 		Cases: func(tier string) int { return forcedCells() + vlib.TierN(tier, 480, 12000) },
-		Rule: "forced part (all 360 cells in both tiers): a message is parked at one of 6 points of its path {inside the subscriber decorator, received but not dispatched, dispatched but not started, inside the handler (gate), before publishing, before settlement} " +
-			"x {1,2,8} concurrent Close callers x subscriber {scripted, scripted that emits one more message from its Close(), scripted that ignores the context, GoChannel buffer 0, GoChannel buffer 4} x CloseTimeout {1 h, 30 ms with the handler held longer} " +
+		Rule: "forced part (all 432 cells in both tiers): a message is parked at one of 6 points of its path {inside the subscriber decorator, received but not dispatched, dispatched but not started, inside the handler (gate), before publishing, before settlement} " +
+			"x {1,2,8} concurrent Close callers x subscriber {scripted, scripted that emits one more message from its Close(), scripted that ignores the context, scripted whose Close() waits until every delivered message is settled (like a broker client draining in-flight messages), GoChannel buffer 0, GoChannel buffer 4} x CloseTimeout {1 h, 30 ms with the handler held longer} " +
 			"x {handleClose goroutine parked until Close signalled and Run cancelled the context, not parked}; Close is called while the message is parked, then the park is released, the handler is held at a gate until every Close call returned or the process is quiescent, then the gate opens. " +
 			"random part: routers of 1..3 handlers, 1..10 messages, handlers of random duration, Close (1..3 callers) or Run-context cancel at a random moment, scripted or GoChannel subscribers. " +
 			"Oracle: each Close caller samples, right after Close returned nil, every emitted message: a message whose handler was entered must have left the handler and be settled; no handler entry stamp may be later than a nil-returning Close's return stamp; " +
@@ -60,6 +60,8 @@ type tracked struct {
 	entered atomic.Uint64
 	exited  atomic.Uint64
 	entries atomic.Int32
+	// delivered is set when the scripted subscriber handed the message to its consumer (the router side)
+	delivered atomic.Bool
 }
 
 type closeRec struct {
@@ -198,7 +200,7 @@ func forced(e *vlib.Env) vlib.Result {
 	var sub message.Subscriber
 	switch {
 	case strings.HasPrefix(subKind, "scripted"):
-		ssub = &vlib.Sub{Name: id, IgnoreCtx: subKind == "scripted-ignore-ctx"}
+		ssub = &vlib.Sub{Name: id, IgnoreCtx: subKind == "scripted-ignore-ctx" || subKind == "scripted-drains-on-close"}
 		sub = ssub
 	default:
 		ps = gochannel.NewGoChannel(gochannel.Config{OutputChannelBuffer: map[string]int64{"gochannel-buf0": 0, "gochannel-buf4": 4}[subKind]}, watermill.NopLogger{})
@@ -247,11 +249,37 @@ func forced(e *vlib.Env) vlib.Result {
 			c.SetContext(sp.Ctx)
 			w.track(uuid, c)
 			emitWg.Add(1)
-			go func() { defer emitWg.Done(); sp.Send(c) }()
+			t := w.get(uuid)
+			go func() {
+				defer emitWg.Done()
+				if sp.Send(c) {
+					t.delivered.Store(true)
+				}
+			}()
 		} else {
 			w.track(uuid, nil)
 			emitWg.Add(1)
 			go func() { defer emitWg.Done(); ps.Publish(topic, orig) }()
+		}
+	}
+	if subKind == "scripted-drains-on-close" {
+		// like a broker client: Close() first waits until every message it delivered has been acked or nacked
+		ssub.OnClose = func(s *vlib.Sub) {
+			w.mu.Lock()
+			ts := append([]*tracked(nil), w.order...)
+			w.mu.Unlock()
+			for _, t := range ts {
+				if t.emitted == nil {
+					continue
+				}
+				// a Send still in flight either completes (delivered) or is dropped when the subscription ends below
+				if t.delivered.Load() {
+					select {
+					case <-t.emitted.Acked():
+					case <-t.emitted.Nacked():
+					}
+				}
+			}
 		}
 	}
 	if subKind == "scripted-emit-on-close" {
